@@ -607,6 +607,7 @@ func main() {
 		"op-jwt-assertion: the trust set is the keys the storage holds for the client named in iss, whatever sub says; with the default SubjectIsIssuer check a token with sub != iss may be refused before the signature is looked at",
 		"a token with kid facing several kid-less candidate keys is grey (DESIGN 6a); an EC key of another curve counts as a candidate for ambiguity only in favour of the library",
 		"remote key set: an acceptance is legal if it is legal for the cached or for the currently served document; must-accept only when both agree",
+		"remote key set after a rotation (part R): once two further downloads have been observed at the JWKS endpoint the first one's result is stored, and only the keys of the document published now are trusted",
 		"a payload of JSON null is C09's subject and is not generated here")
 	var mand []string
 	for v, n := range verifierNames {
@@ -621,6 +622,7 @@ func main() {
 		}
 	}
 	mand = append(mand, "delegated-subject-accepted-under-issuer-key:op-jwt-assertion", "subject-clients-key-refused-at-signature:op-jwt-assertion")
+	mand = append(mand, "rotation:withdrawn-judged", "rotation:published-judged", "rotation:refresh-proven:empty", "rotation:refresh-proven:withdraw-one", "rotation:refresh-proven:disjoint")
 	mand = append(mand, "FindMatchingKey:enumeration-complete", "FindMatchingKey:ambiguity-seen", "FindMatchingKey:exact-seen", "FindMatchingKey:unique-kidless-seen")
 	run.Mandatory(mand...)
 	initPool()
@@ -629,6 +631,12 @@ func main() {
 	if rc := run.ReplayCase(); rc >= 0 {
 		for _, m := range mand { // a single replayed case cannot observe every scenario
 			run.Observed(m)
+		}
+		if rc >= rotationBase {
+			runRotation(run, int(rc-rotationBase))
+			run.Distinct("replay-a")
+			run.Distinct("replay-b")
+			run.Finish()
 		}
 		if rc >= findKeyBase {
 			replayFindKey(run, rc)
@@ -650,8 +658,13 @@ func main() {
 			run.HarnessBug(fmt.Sprintf("case %d: panic outside a monitored library call: %s at %s", j, pi.Value, pi.Frame))
 		}
 	})
+	ev.Parallel(rotationCount(run), 0, func(_ int, j int) {
+		if pi := mon.Catch(func() { runRotation(run, j) }); pi != nil {
+			run.HarnessBug(fmt.Sprintf("rotation case %d: panic outside a monitored library call: %s at %s", j, pi.Value, pi.Frame))
+		}
+	})
 	t1 := time.Now()
 	runFindKey(run)
-	run.Extra("phase_wall_s", map[string]float64{"verifiers": t1.Sub(t0).Seconds(), "FindMatchingKey": time.Since(t1).Seconds()})
+	run.Extra("phase_wall_s", map[string]float64{"verifiers+rotation": t1.Sub(t0).Seconds(), "FindMatchingKey": time.Since(t1).Seconds()})
 	run.Finish()
 }
